@@ -4,6 +4,7 @@ import (
 	"context"
 	"io/fs"
 	"os"
+	"sync"
 
 	"github.com/gokrazy/rsync/internal/rsyncopts"
 	"github.com/gokrazy/rsync/internal/rsyncstats"
@@ -80,16 +81,30 @@ func (rt *Transfer) deleteFiles(fileList []*File) error {
 }
 
 // waitFor calls f and waits for it to complete, but only until the specified
-// context is cancelled.
-func waitFor(ctx context.Context, f func() error) error {
+// context is cancelled. bg is done once f has returned.
+func waitFor(ctx context.Context, bg *sync.WaitGroup, f func() error) error {
 	errChan := make(chan error, 1)
-	go func() { errChan <- f() }()
+	bg.Add(1)
+	go func() {
+		defer bg.Done()
+		errChan <- f()
+	}()
 	select {
 	case <-ctx.Done():
 		return ctx.Err()
 	case err := <-errChan:
 		return err
 	}
+}
+
+// CloseWhenDone closes root once the goroutines of Do have finished. Do returns
+// as soon as one of them fails; the other one may be in the middle of a file
+// and still has to remove its temporary file, which needs the root.
+func (rt *Transfer) CloseWhenDone(root *os.Root) {
+	go func() {
+		rt.bg.Wait()
+		root.Close()
+	}()
 }
 
 // rsync/main.c:do_recv
@@ -107,10 +122,10 @@ func (rt *Transfer) Do(c *rsyncwire.Conn, fileList []*File, noReport bool) (*rsy
 	// error, or vice versa (instead, return and let the goroutine finish in the
 	// background).
 	eg.Go(func() error {
-		return waitFor(ctx, func() error { return rt.GenerateFiles(ctx, fileList) })
+		return waitFor(ctx, &rt.bg, func() error { return rt.GenerateFiles(ctx, fileList) })
 	})
 	eg.Go(func() error {
-		return waitFor(ctx, func() error { return rt.RecvFiles(fileList) })
+		return waitFor(ctx, &rt.bg, func() error { return rt.RecvFiles(fileList) })
 	})
 	if err := eg.Wait(); err != nil {
 		return nil, err
